@@ -102,6 +102,24 @@ class Interp:
         self.paths = paths or U
         self.crash_obj = None
         self.user_exc = None       # the last UserError object raised
+        self.stack = []            # ids of the call statements in progress
+        self.fail_setup = {}       # call id -> exception class (Ref side of C14)
+        self.identity_errors = []  # UserErrors that came back as another object
+        self.fault_sid = None      # callable: id of the call in which an injected fault fired
+        self.ids = {}
+        self._number(prog['root'], 'r')
+
+    def _number(self, stmts, prefix):
+        for i, s in enumerate(stmts):
+            sid = '%s.%d' % (prefix, i)
+            self.ids[id(s)] = sid
+            if s['k'] in ('bf', 'sb'):
+                self._number(s.get('ch', []), sid)
+            elif s['k'] == 'if':
+                self._number(s.get('then', []), sid)
+
+    def active_call(self):
+        return self.stack[-1] if self.stack else None
 
     # -- program points -----------------------------------------------------
     def point(self):
@@ -137,7 +155,11 @@ class Interp:
             args = s.get('args', [])
             kwargs = s.get('kwargs', {})
             body = (lambda a2, *ar, **kw: self.body(a2, s, fn, ar, kw))
+            sid = self.ids.get(id(s))
+            self.stack.append(sid)
             try:
+                if sid in self.fail_setup:
+                    raise self.fail_setup[sid]('injected setup failure')
                 if k == 'bf':
                     r = api.build_file(s['p'], s.get('cmp', 'METADATA'), fn,
                                        body, args, kwargs)
@@ -145,9 +167,17 @@ class Interp:
                     r = api.subbuild(fn, body, args, kwargs)
                 obs.append(['ok', r])
             except CATCH as e:
+                if isinstance(e, UserError) and e is not self.user_exc:
+                    self.identity_errors.append(sid)
                 if not s.get('catch'):
                     raise
-                obs.append(['exc', type(e).__name__])
+                name = type(e).__name__
+                if isinstance(e, OSError) and sid is not None and (
+                        sid in self.fail_setup or (self.fault_sid and self.fault_sid() == sid)):
+                    name = 'OSError*'     # an injected fault surfaced here: any OSError class will do
+                obs.append(['exc', name])
+            finally:
+                self.stack.pop()
         elif k == 'q':
             obs.append(['q', s['kind'], s['p'],
                         api.query(s['kind'], s['p'], s.get('cmp', 'METADATA'))])
